@@ -135,35 +135,53 @@ Record InvS (c : ctx) (s : istate) : Prop := {
 Definition Inv (rules : key -> rule) (c : ctx) (s : istate) : Prop := nf s /\ InvT c s /\ InvI rules c s /\ InvS c s.
 
 (* ---------- frame lemmas: each part of the invariant depends on a few views of the state only ---------- *)
-Lemma in_progress_kind s s' t : kind_of s' t = kind_of s t -> is_in_progress s' t = is_in_progress s t.
-Proof. unfold is_in_progress. now intros ->. Qed.
+Lemma in_progress_iff s t : is_in_progress s t = true <-> kind_of s t = KWaiting \/ kind_of s t = KComputing.
+Proof. unfold is_in_progress. destruct (kind_of s t); split; intros H; try discriminate; auto; destruct H; discriminate. Qed.
 
-Lemma n_computing_frame s s' : (forall k, kind_of s' k = kind_of s k) -> is_tasks s' = is_tasks s -> n_computing s' = n_computing s.
+Lemma kind_eqb_iff (a b c : kind) : (a = c <-> b = c) -> kind_eqb a c = kind_eqb b c.
 Proof.
-  intros Hk Ht. unfold n_computing. rewrite Ht. f_equal. apply filter_ext. intros e. now rewrite Hk.
+  intros H. destruct (kind_eqb a c) eqn:E1, (kind_eqb b c) eqn:E2; auto.
+  - apply kind_eqb_eq in E1. apply H in E1. apply kind_eqb_neq in E2. contradiction.
+  - apply kind_eqb_eq in E2. apply H in E2. apply kind_eqb_neq in E1. contradiction.
+Qed.
+
+(* InvT looks at the state kinds only through "is InProgressWaiting" and "is InProgressComputing" *)
+Lemma InvT_frame_k c s s' :
+  NoDup (map fst (is_rules s')) ->
+  (forall k, kind_of s' k = KWaiting <-> kind_of s k = KWaiting) -> (forall k, kind_of s' k = KComputing <-> kind_of s k = KComputing) ->
+  is_tasks s' = is_tasks s -> is_ready s' = is_ready s -> is_fintasks s' = is_fintasks s -> is_outstanding s' = is_outstanding s ->
+  InvT c s -> InvT c s'.
+Proof.
+  intros Hnd Hw Hc Ht Hr Hf Ho [A1 A2 A3 A4 A5 A6 A7 A8 A9 A10 A11].
+  constructor; rewrite ?Ht, ?Hr, ?Hf, ?Ho; auto.
+  - intros t. split; intros H.
+    + apply in_progress_iff. apply A5, in_progress_iff in H. destruct H as [H|H]; [left; now apply Hw|right; now apply Hc].
+    + apply A5, in_progress_iff. apply in_progress_iff in H. destruct H as [H|H]; [left; now apply Hw|right; now apply Hc].
+  - intros t ti Hg Hk. apply Hc in Hk. eapply A6; eauto.
+  - intros t Hin. destruct (A7 t Hin) as (ti & Hg & Hk & Hw0). exists ti. repeat split; auto. now apply Hw.
+  - intros t ti Hg Hk. apply Hw in Hk. eapply A8; eauto.
+  - intros t Hin. destruct (A9 t Hin) as (ti & Hg & Hk & Hp0). exists ti. repeat split; auto. now apply Hc.
+  - intros t ti Hg Hp. destruct (A10 t ti Hg Hp) as [H1 H2]. split; auto. now apply Hc.
+  - rewrite A11. unfold n_computing. rewrite Ht. f_equal. apply filter_ext. intros e. apply kind_eqb_iff. symmetry. apply Hc.
 Qed.
 
 Lemma InvT_frame c s s' :
   NoDup (map fst (is_rules s')) -> (forall k, kind_of s' k = kind_of s k) -> is_tasks s' = is_tasks s ->
   is_ready s' = is_ready s -> is_fintasks s' = is_fintasks s -> is_outstanding s' = is_outstanding s ->
   InvT c s -> InvT c s'.
+Proof. intros Hnd Hk. apply InvT_frame_k; auto; intros k; now rewrite Hk. Qed.
+
+Lemma n_computing_frame s s' : (forall k, kind_of s' k = kind_of s k) -> is_tasks s' = is_tasks s -> n_computing s' = n_computing s.
 Proof.
-  intros Hnd Hk Ht Hr Hf Ho [A1 A2 A3 A4 A5 A6 A7 A8 A9 A10 A11].
-  constructor; rewrite ?Ht, ?Hr, ?Hf, ?Ho; auto.
-  - intros t. rewrite (in_progress_kind s s' t (Hk t)). apply A5.
-  - intros t ti. rewrite Hk. apply A6.
-  - intros t Hin. rewrite Hk. now apply A7.
-  - intros t ti. rewrite Hk. apply A8.
-  - intros t Hin. rewrite Hk. now apply A9.
-  - intros t ti. rewrite Hk. apply A10.
-  - rewrite (n_computing_frame s s'); auto.
+  intros Hk Ht. unfold n_computing. rewrite Ht. f_equal. apply filter_ext. intros e. now rewrite Hk.
 Qed.
 
 Lemma ireq_ok_frame rules s s' rq : is_tasks s' = is_tasks s -> ireq_ok rules s rq -> ireq_ok rules s' rq.
 Proof. unfold ireq_ok. now intros ->. Qed.
 
-Lemma InvI_frame rules c s s' :
-  (forall k, kind_of s' k = kind_of s k) -> (forall k, ri_paused (rinfo_of s' k) = ri_paused (rinfo_of s k)) ->
+(* InvI and InvS look at the state kinds only through "is IsScanning" *)
+Lemma InvI_frame_k rules c s s' :
+  (forall k, kind_of s k = KScanning -> kind_of s' k = KScanning) -> (forall k, ri_paused (rinfo_of s' k) = ri_paused (rinfo_of s k)) ->
   (forall t, asum (fun ri => cnt_i t (ri_paused ri)) (is_rules s') = asum (fun ri => cnt_i t (ri_paused ri)) (is_rules s)) ->
   is_tasks s' = is_tasks s -> is_inreq s' = is_inreq s -> is_fininreq s' = is_fininreq s ->
   InvI rules c s -> InvI rules c s'.
@@ -177,14 +195,40 @@ Proof.
   - intros k. rewrite Hp. eapply Forall_impl; [apply Hok|auto].
   - intros t ti Hg. eapply Forall_impl; [apply Hok|eauto].
   - eapply Forall_impl; [apply Hok|auto].
-  - intros k. rewrite Hk, Hp. apply B7.
+  - intros k Hns. rewrite Hp. apply B7. intros Hc. apply Hns. now apply Hk.
   - intros k rq. rewrite Hp. apply B8.
 Qed.
 
-Lemma sreq_ok_frame s s' rq :
-  (forall k, kind_of s' k = kind_of s k) -> (forall k, kind_of s k = KScanning -> res_deps (res_of s' k) = res_deps (res_of s k)) ->
+Lemma InvI_frame rules c s s' :
+  (forall k, kind_of s' k = kind_of s k) -> (forall k, ri_paused (rinfo_of s' k) = ri_paused (rinfo_of s k)) ->
+  (forall t, asum (fun ri => cnt_i t (ri_paused ri)) (is_rules s') = asum (fun ri => cnt_i t (ri_paused ri)) (is_rules s)) ->
+  is_tasks s' = is_tasks s -> is_inreq s' = is_inreq s -> is_fininreq s' = is_fininreq s ->
+  InvI rules c s -> InvI rules c s'.
+Proof. intros Hk. apply InvI_frame_k. intros k. now rewrite Hk. Qed.
+
+Lemma sreq_ok_frame_k s s' rq :
+  (forall k, kind_of s' k = KScanning <-> kind_of s k = KScanning) -> (forall k, kind_of s k = KScanning -> res_deps (res_of s' k) = res_deps (res_of s k)) ->
   sreq_ok s rq -> sreq_ok s' rq.
-Proof. unfold sreq_ok. intros Hk Hd (H1 & H2 & H3). rewrite Hk, (Hd _ H1). auto. Qed.
+Proof. unfold sreq_ok. intros Hk Hd (H1 & H2 & H3). rewrite (Hd _ H1). split; [now apply Hk|auto]. Qed.
+
+Lemma InvS_frame_k c s s' :
+  (forall k, kind_of s' k = KScanning <-> kind_of s k = KScanning) -> (forall k, kind_of s k = KScanning -> res_deps (res_of s' k) = res_deps (res_of s k)) ->
+  (forall k, ri_deferred (rinfo_of s' k) = ri_deferred (rinfo_of s k)) ->
+  (forall t, asum (fun ri => cnt_s t (ri_deferred ri)) (is_rules s') = asum (fun ri => cnt_s t (ri_deferred ri)) (is_rules s)) ->
+  is_tasks s' = is_tasks s -> is_toscan s' = is_toscan s ->
+  InvS c s -> InvS c s'.
+Proof.
+  intros Hk Hd Hp Hs Ht Hq [C1 C2 C3 C4 C5 C6 C7 C8].
+  assert (Hok : forall rq, sreq_ok s rq -> sreq_ok s' rq) by (intros; eapply sreq_ok_frame_k; eauto).
+  constructor; rewrite ?Ht, ?Hq; auto.
+  - intros k. rewrite (kind_eqb_iff _ _ _ (Hk k)), <- C1. unfold scan_count. now rewrite Hs, Ht, Hq.
+  - eapply Forall_impl; [apply Hok|auto].
+  - eapply Forall_impl; [apply Hok|auto].
+  - intros k. rewrite Hp. eapply Forall_impl; [apply Hok|auto].
+  - intros t ti Hg. eapply Forall_impl; [apply Hok|eauto].
+  - intros k Hns. rewrite Hp. apply C6. intros Hc. apply Hns. now apply Hk.
+  - intros k rq. rewrite Hp. apply C7.
+Qed.
 
 Lemma InvS_frame c s s' :
   (forall k, kind_of s' k = kind_of s k) -> (forall k, kind_of s k = KScanning -> res_deps (res_of s' k) = res_deps (res_of s k)) ->
@@ -192,18 +236,7 @@ Lemma InvS_frame c s s' :
   (forall t, asum (fun ri => cnt_s t (ri_deferred ri)) (is_rules s') = asum (fun ri => cnt_s t (ri_deferred ri)) (is_rules s)) ->
   is_tasks s' = is_tasks s -> is_toscan s' = is_toscan s ->
   InvS c s -> InvS c s'.
-Proof.
-  intros Hk Hd Hp Hs Ht Hq [C1 C2 C3 C4 C5 C6 C7 C8].
-  assert (Hok : forall rq, sreq_ok s rq -> sreq_ok s' rq) by (intros; eapply sreq_ok_frame; eauto).
-  constructor; rewrite ?Ht, ?Hq; auto.
-  - intros k. rewrite Hk, <- C1. unfold scan_count. now rewrite Hs, Ht, Hq.
-  - eapply Forall_impl; [apply Hok|auto].
-  - eapply Forall_impl; [apply Hok|auto].
-  - intros k. rewrite Hp. eapply Forall_impl; [apply Hok|auto].
-  - intros t ti Hg. eapply Forall_impl; [apply Hok|eauto].
-  - intros k. rewrite Hk, Hp. apply C6.
-  - intros k rq. rewrite Hp. apply C7.
-Qed.
+Proof. intros Hk. apply InvS_frame_k. intros k. now rewrite Hk. Qed.
 
 Lemma kind_of_rinfo s s' k : rinfo_of s' k = rinfo_of s k -> kind_of s' k = kind_of s k.
 Proof. unfold kind_of. now intros ->. Qed.
